@@ -128,9 +128,81 @@ class Program:
                 except SyntaxError as e:
                     raise AnalysisError("cannot parse %s: %s" % (path, e))
                 m = Module(rel, path, src, tree)
+                m.gated = []
+                self._gate(m, os.path.relpath(path, self.root))
                 self.modules[rel] = m
         for m in self.modules.values():
             self._index_module(m)
+
+    # ------------------------------------------------------------------ normal-form gate
+    def _gate(self, m, relpath):
+        """A function whose text differs from the reviewed reference copy (/verif/reference) but whose function normal form
+        (sa/fnf.py) is the same is a behaviour-preserving rewrite of reviewed code: it is analysed in its reviewed form, so that
+        rules written against that form are not disturbed by renamed locals, hoisted temporaries, swapped branches, extracted
+        local helpers and the like.  A function whose normal form differs is analysed as it stands."""
+        if os.environ.get("VERIF_NO_GATE"):
+            return
+        ref_root = os.path.join(os.path.dirname(os.path.dirname(os.path.abspath(__file__))), "reference")
+        rp = os.path.join(ref_root, relpath)
+        if not os.path.exists(rp):
+            return
+        with open(rp, "r", encoding="utf-8") as fh:
+            rsrc = fh.read()
+        if rsrc == m.source:
+            return
+        try:
+            rtree = ast.parse(rsrc, filename=rp)
+        except SyntaxError:
+            return
+        from .fnf import fnf, module_pure_helpers
+        try:
+            hc, hr = module_pure_helpers(m.tree), module_pure_helpers(rtree)
+        except Exception:
+            return
+
+        def units(tree):
+            out = {}
+            for i, n in enumerate(tree.body):
+                if isinstance(n, (ast.FunctionDef, ast.AsyncFunctionDef)):
+                    out[n.name] = (tree.body, i)
+                elif isinstance(n, ast.ClassDef):
+                    for j, x in enumerate(n.body):
+                        if isinstance(x, (ast.FunctionDef, ast.AsyncFunctionDef)):
+                            out[n.name + "." + x.name] = (n.body, j)
+            return out
+        cu, ru = units(m.tree), units(rtree)
+        for q, (cbody, ci) in cu.items():
+            if q not in ru:
+                continue
+            rbody, ri = ru[q]
+            cn, rn = cbody[ci], rbody[ri]
+            if ast.dump(cn) == ast.dump(rn):
+                continue
+            try:
+                same = fnf(cn, hc) == fnf(rn, hr)
+            except Exception:
+                same = False
+            if same:
+                # the reviewed text may use module-level names (imports, helpers) the current module no longer binds
+                bound = set(dir(__import__("builtins")))
+                for n in ast.walk(m.tree):
+                    if isinstance(n, (ast.Import, ast.ImportFrom)):
+                        bound |= {(a.asname or a.name).split(".")[0] for a in n.names}
+                    elif isinstance(n, (ast.FunctionDef, ast.ClassDef, ast.AsyncFunctionDef)):
+                        bound.add(n.name)
+                    elif isinstance(n, ast.Name) and isinstance(n.ctx, ast.Store):
+                        bound.add(n.id)
+                    elif isinstance(n, ast.arg):
+                        bound.add(n.arg)
+                used = {n.id for n in ast.walk(rn) if isinstance(n, ast.Name) and isinstance(n.ctx, ast.Load)}
+                own = {n.id for n in ast.walk(rn) if isinstance(n, ast.Name) and isinstance(n.ctx, (ast.Store, ast.Del))} | \
+                    {n.arg for n in ast.walk(rn) if isinstance(n, ast.arg)} | \
+                    {n.name for n in ast.walk(rn) if isinstance(n, (ast.FunctionDef, ast.ClassDef))} | \
+                    {h.name for n in ast.walk(rn) if isinstance(n, ast.Try) for h in n.handlers if h.name}
+                if used - own - bound:
+                    continue
+                cbody[ci] = rn
+                m.gated.append(q)
 
     def _index_module(self, m):
         pkg_of = m.name if m.path.endswith("__init__.py") else m.name.rpartition(".")[0]
